@@ -5,7 +5,7 @@ from ..expr import callee, call_args, peel, Keys, Folder, int_type, type_range, 
 from ..callgraph import fname, CallGraph
 from ..effects import extern_calls, var_refs, is_static_storage
 from ..absint import AI, Observer, St, Int, Ptr, I, UNINIT, MAYBE_UNINIT, TOP, StructV, vjoin
-from ..poly import Poly, poly_of
+from ..poly import Poly, poly_of, poly_of_function
 from ..state import entries
 from . import c16, loops
 from .c20 import FACTORY
@@ -105,24 +105,30 @@ class _Cursor(object):
             rb = self.reads[n1:]
             if not (oa - ob).is_zero():
                 self.problems.append((x, 'branches of ?: consume different amounts'))
-            # size selected by a width variable:  (w == c1) ? read c1 : read c2, w in {c1, c2}
-            ck = self.keys.key(c)
-            m = re.match(r'^\((.+) == n:(\d+)\)$', ck)
-            if m and len(ra) == 1 and len(rb) == 1 and m.group(1) in self.symbols:
-                vals = self._assigned_constants(m.group(1))
-                c1 = int(m.group(2))
-                others = vals - {c1}
-                if ra[0][2] == Poly.const(c1) and len(others) == 1 and rb[0][2] == Poly.const(list(others)[0]):
-                    del self.reads[n0:]
-                    self.reads.append((x, off, Poly.sym(self.symbols[m.group(1)]), self.region[-1]))
-                else:
-                    self.problems.append((x, 'read width does not match the width variable (%s in %s)' % (m.group(1).split('#')[0], sorted(vals))))
+            self._width_select(x, c, n0, ra, rb, off)
             return oa
         if k == 'LambdaExpr':
             return off
         for c in kids(x):
             off = self.expr(c, off)
         return off
+
+    def _width_select(self, x, c, n0, ra, rb, off):
+        """size selected by a width variable:  (w == c1) ? read c1 : read c2  with w in {c1, c2}
+        (also != and the if/else form): the two reads are one read of w bytes."""
+        ck = self.keys.key(c)
+        m = re.match(r'^\((.+) (==|!=) n:(\d+)\)$', ck)
+        if m and len(ra) == 1 and len(rb) == 1 and m.group(1) in self.symbols:
+            if m.group(2) == '!=':
+                ra, rb = rb, ra
+            vals = self._assigned_constants(m.group(1))
+            c1 = int(m.group(3))
+            others = vals - {c1}
+            if ra[0][2] == Poly.const(c1) and len(others) == 1 and rb[0][2] == Poly.const(list(others)[0]):
+                del self.reads[n0:]
+                self.reads.append((x, off, Poly.sym(self.symbols[m.group(1)]), self.region[-1]))
+            else:
+                self.problems.append((x, 'read width does not match the width variable (%s in %s)' % (m.group(1).split('#')[0], sorted(vals))))
 
     def _assigned_constants(self, key):
         vals = set()
@@ -171,8 +177,14 @@ class _Cursor(object):
             then = p[1] if not s.get('hasVar') else p[2]
             els = p[2] if len(p) > 2 and not s.get('hasVar') else (p[3] if len(p) > 3 else None)
             # a branch that leaves the function does not constrain the other
+            n0 = len(self.reads)
             oa = self.stmt(then, off)
+            ra = self.reads[n0:]
+            n1 = len(self.reads)
             ob = self.stmt(els, off) if els is not None else off
+            rb = self.reads[n1:]
+            if els is not None and (oa - ob).is_zero():
+                self._width_select(s, cond, n0, ra, rb, off)
             a_exits = _always_returns(then)
             b_exits = els is not None and _always_returns(els)
             if a_exits and not b_exits:
@@ -207,34 +219,45 @@ def _always_returns(s):
     return False
 
 
+class _ReadObs(Observer):
+    def __init__(self):
+        self.offs = []
+        self.stores = []
+        self.unknown = []
+
+    def load(self, ai, e, ptr, extent, st):
+        if ptr.target[:1] == ('symbuf',):
+            (self.offs if ptr.off is not None else self.unknown).append(ptr.off)
+
+    def store(self, ai, e, ptr, extent, st):
+        self.stores.append(e)
+
+
 def _decode_sizes(ctx):
-    """bytes read by Decode8/32/64 at their pointer argument, from their own bodies."""
+    """Bytes read by Decode8/32/64 at their pointer argument: the hull of the offsets their bodies
+    (helpers inlined, constant-trip loops unrolled) load from, by abstract interpretation."""
     G = ctx.G
     sizes = {}
-    k8 = G.one('cctz::Decode8')
-    u, f = G.defs[k8]
-    p = params_of(f)[0]
-    derefs = [x for x in walk(f) if x.get('kind') == 'UnaryOperator' and x.get('opcode') == '*' and
-              (peel(kids(x)[0]).get('referencedDecl') or {}).get('id') == p['id']]
-    subs = [x for x in walk(f) if x.get('kind') == 'ArraySubscriptExpr']
-    adv = [x for x in walk(f) if x.get('kind') in ('UnaryOperator', 'CompoundAssignOperator') and x.get('opcode') in ('++', '--', '+=', '-=')]
-    if len(derefs) != 1 or subs or adv:
-        raise AnalysisBroken('Decode8 does not read exactly one byte at its argument')
-    sizes['Decode8'] = 1
-    for name in ('Decode32', 'Decode64'):
+    for name in ('Decode8', 'Decode32', 'Decode64'):
         k = G.one('cctz::' + name)
         u, f = G.defs[k]
         p = params_of(f)[0]
-        c = _Cursor(ctx, u, f, p['id'], {}, {'Decode8': 1})
-        from ..frontend import body_of
-        total = c.stmt(body_of(f), Poly())
-        if c.problems or len(total.t) != 1 or () not in total.t:
-            raise AnalysisBroken('%s: byte consumption is not a constant (%s, %s)' % (name, total, c.problems[:1]))
-        for r in c.reads:
-            B = r[4] if len(r) > 4 else None
-            if B is None or not (B - r[1] - r[2]).nonneg():
-                raise AnalysisBroken('%s: read outside its stride' % name)
-        sizes[name] = total.t[()]
+        obs = _ReadObs()
+        ai = AI(G, obs, unroll=lambda f_: True, unroll_cap=64)
+        st = St()
+        st.mem[(p['id'],)] = Ptr(False, ('symbuf', name), Int(0, 0))
+        res = ai.analyse(k, st)
+        if not res or obs.unknown or obs.stores or not obs.offs:
+            raise AnalysisBroken('%s: byte consumption is not a constant (%d reads, %d at unknown offsets, %d stores)' %
+                                 (name, len(obs.offs), len(obs.unknown), len(obs.stores)))
+        lo = min(o.lo for o in obs.offs)
+        hi = max(o.hi for o in obs.offs)
+        covered = set()
+        for o in obs.offs:
+            covered.update(range(o.lo, o.hi + 1))
+        if lo != 0 or hi > 64 or covered != set(range(0, hi + 1)):
+            raise AnalysisBroken('%s: reads offsets [%s,%s] of its argument, not a block starting at it' % (name, lo, hi))
+        sizes[name] = hi + 1
     return sizes
 
 
@@ -254,24 +277,10 @@ def check_cursor(ctx):
     sym_d = {'%s#%s' % (pd['name'], pd['id']): 'time_len'}
     for nm in ('timecnt', 'typecnt', 'charcnt', 'leapcnt', 'ttisstdcnt', 'ttisutcnt'):
         sym_d['this.' + nm] = nm
-    lenvar = None
-    P_len = Poly()
-    okdl = True
-    for x in walk(fd):
-        if x.get('kind') == 'VarDecl' and kids(x) and Kd.key(kids(x)[-1]) == 'n:0':
-            lenvar = x
-        if x.get('kind') == 'CompoundAssignOperator':
-            if lenvar is None or (peel(kids(x)[0]).get('referencedDecl') or {}).get('id') != lenvar['id'] or x.get('opcode') != '+=':
-                okdl = False
-                continue
-            p = poly_of(kids(x)[1], Kd, sym_d)
-            if p is None:
-                okdl = False
-            else:
-                P_len = P_len + p
-    rets = [x for x in walk(fd) if x.get('kind') == 'ReturnStmt']
-    okdl = okdl and lenvar is not None and len(rets) == 1 and \
-        (peel(kids(rets[0])[0]).get('referencedDecl') or {}).get('id') == lenvar['id']
+    P_len = poly_of_function(fd, Kd, sym_d)
+    okdl = P_len is not None
+    if P_len is None:
+        P_len = Poly()
     ctx.check(okdl, 'C12-cursor', 'Header::DataLength is a polynomial in the header counts: %s' % P_len, fd,
               'DataLength is not a sum of count*width terms', construct='cursor:datalength')
     # in Load: locate len, tbuf, bp
@@ -614,6 +623,9 @@ def _bounded_local(ctx, u, f, store, val, F):
         return None
     vk = keys.key(x)
     fs = F.facts_at_ast(store) or frozenset()
+    lt = [f_ for f_ in fs if f_[0] == '<' and f_[1] == vk and f_[2].endswith('.typecnt')]
+    if lt:
+        return 'search index < hdr.typecnt on this path'
     ne = [f_ for f_ in fs if f_[0] == '!=' and vk in (f_[1], f_[2]) and (f_[1].endswith('.typecnt') or f_[2].endswith('.typecnt'))]
     if ne and _monotone_up_to(ctx, u, f, x, F):
         return 'search index, != hdr.typecnt on this path and never beyond it'
@@ -631,10 +643,12 @@ def _monotone_up_to(ctx, u, f, ref, F):
                 (peel(kids(x)[0]).get('referencedDecl') or {}).get('id') == did:
             fs = F.facts_at_ast(x) or frozenset()
             if x.get('opcode') == '++':
-                if not any(op == '!=' and vk in (a, b) and (a.endswith('.typecnt') or b.endswith('.typecnt')) for (op, a, b) in fs):
+                if not any((op == '!=' and vk in (a, b) and (a.endswith('.typecnt') or b.endswith('.typecnt'))) or
+                           (op == '<' and a == vk and b.endswith('.typecnt')) for (op, a, b) in fs):
                     return False
             else:
-                if not any(op == '!=' and set((a, b)) == set((vk, 'n:0')) for (op, a, b) in fs):
+                if not any((op == '!=' and set((a, b)) == set((vk, 'n:0'))) or (op in ('<', '<=') and b == vk and a.startswith('n:') and
+                                                                          int(a[2:]) >= (0 if op == '<' else 1)) for (op, a, b) in fs):
                     return False
         if x.get('kind') == 'BinaryOperator' and x.get('opcode') == '=' and \
                 (peel(kids(x)[0]).get('referencedDecl') or {}).get('id') == did:
@@ -664,7 +678,7 @@ def check_da_members(ctx):
     kb = G.one('cctz::Header::Build')
     u, f = G.defs[kb]
     obs = _DAObs('HDR')
-    ai = AI(G, obs, ptr_partition=False, inline=lambda k: False)
+    ai = AI(G, obs, ptr_partition=False, inline=lambda k: k[0] not in ('cctz::Decode8', 'cctz::Decode32', 'cctz::Decode64'))
     st = St()
     st.refs['this'] = ('HDR',)
     st.refs[params_of(f)[0]['id']] = ('TZH',)
